@@ -39,7 +39,7 @@ QUIRKS = ['hdr_gap', 'outputs_first', 'info_comment', 'latch3', 'latch_mix',
 PRIM_NAMES = ['AND2', 'INV', 'FDRE', 'LUT4', 'BUFG', 'CARRY4', 'RAMB18', 'OBUF', 'IBUF', 'MUXF7', 'DSP48E1', 'X_y.z']
 PORT_NAMES_IN = ['I', 'A', 'B', 'C', 'D', 'CE', 'R', 'S', 'I0', 'I1', 'ADDR', 'DI', 'CLK', 'sel']
 PORT_NAMES_OUT = ['O', 'Q', 'Y', 'CO', 'DO', 'Z']
-NET_STEMS = ['n', '$abc$3148$n', '$auto$clkbufmap.cc:262:execute$', 'w.a:b$', 'top.sub/x', '$techmap\\u1.$and$f.v:12$', 'sig<3>', 'q_', 'lut$']
+NET_STEMS = ['n', 'rx_unconnected', '__vpr__unconn', '$abc$3148$n', '$auto$clkbufmap.cc:262:execute$', 'w.a:b$', 'top.sub/x', '$techmap\\u1.$and$f.v:12$', 'sig<3>', 'q_', 'lut$']
 WORDS = ['Generated', 'by', 'Yosys', '0.13+3', '(git', 'sha1', '55924de70)', 'a=b', '.model?', 'x']
 ATTR_KEYS = ['src', 'keep', 'module_not_derived', 'LOC', 'hdlname']
 ATTR_VALS = ['"toggle.sv:26"', '1', '00000000000000000000000000000001', '"SLICE_X0Y0"', 'a.b']
